@@ -1,11 +1,11 @@
 (* C18 - rate limiter and throttle handler bound the send rate without starving it. *)
-From Coq Require Import ZArith QArith List Bool.
+From Coq Require Import ZArith QArith List Bool Lia.
 Import ListNotations.
 Require Import AV.Generated.ExnOrder AV.Model.Base AV.Model.Limiter AV.Proofs.LimiterProofs.
 Open Scope Q_scope.
 
-(* for every rate r > 0 (also below 1/s), every strictly increasing clock and every window
-   [a, a+T]: the clock readings inside the window let at most r*T + r + 1 messages through,
+(* for every rate r > 0 (also below 1/s), every non-decreasing clock (`increasing` allows equal readings: a coarse clock may return the
+   same value twice) and every window [a, a+T]: the clock readings inside the window let at most r*T + r + 1 messages through,
    whatever happened before; and the limiter never raises *)
 Theorem C18_limiter_window :
   forall rate t0 before inside a T,
@@ -54,4 +54,4 @@ Example C18_nonvacuous :
   ser_lim_run (1 # 2) 0 [(1 # 1); (21 # 10); (22 # 10); (5 # 1)] = [0; 0; 1; 0; 1; -1; 0; 1; 5; 1]%Z
   /\ increasing 0 [(1 # 1); (21 # 10); (22 # 10); (5 # 1)]
   /\ ser_thr_run 20 5 20 0 [TNot; TNot; TNot; TThrottled; TAllow 1; TThrottled; TAllow 2; TAllow 23; TAllow 24] = [1; 0; 0; 1]%Z.
-Proof. split; [vm_compute; reflexivity|]. split; [cbn; repeat split; reflexivity|vm_compute; reflexivity]. Qed.
+Proof. split; [vm_compute; reflexivity|]. split; [cbn; repeat split; unfold Qle; cbn; lia|vm_compute; reflexivity]. Qed.
